@@ -141,7 +141,7 @@ def run(ctx):
     ctx.log("proofs:", proofs_ok, detail[:200])
     rng = ctx.rng
     now_t = time.time()
-    n_scen = 100 if ctx.quick else 3400
+    n_scen = 100 if ctx.quick else 1700
     per = 6
     cases, scenarios = [], []
     for s in range(n_scen):
